@@ -208,7 +208,7 @@ def boundary_hist_cases(g, n):
     r = g.rng
     out = []
     for _ in range(n):
-        c = r.randrange(3)
+        c = r.choice([0, 1, 2, 2])
         if c == 0:
             base = r.choice([256, 512, 512, 768, 1024, 1536])
             ln = base + r.choice([1, 1, 1, 0, 2])
@@ -465,7 +465,7 @@ class C04(HistProp):
             t = nested_ty(g, g.rng.choice([1, 2, 2]))
             v = g.val(t, 12)
             out.append(show(['store', t, v] + StoreGen(g, t, v).history(g.rng.choice([6, 15, 30]))))
-        out += boundary_hist_cases(g, self.n(tier) // 5)
+        out += boundary_hist_cases(g, self.n(tier) // 2)
         if tier == 'thorough':
             # exhaustive: every op sequence of length <= 5 over a small alphabet, on small lists / bitlists
             import itertools
